@@ -27,13 +27,19 @@ def base_models(tmpdir):
 
 
 def start_project(spec, sim_absence):
+    backward = False
+    if sim_absence and sim_absence[0] == "back":
+        backward, sim_absence = True, sim_absence[1:]
     m = S.build(spec)
     if spec.get("subproject_setup"):
         for t in m.tasks:
             if hasattr(t, "set_all_attributes_from_json") and t.file_path:
                 t.set_all_attributes_from_json(remove_absence_time_list=False)
                 t.set_work_amount_progress_of_unit_step_time(m.project.unit_timedelta)
-    m.project.simulate(max_time=40, absence_time_list=list(sim_absence))
+    if backward:
+        m.project.backward_simulate(max_time=40, absence_time_list=list(sim_absence))
+    else:
+        m.project.simulate(max_time=40, absence_time_list=list(sim_absence))
     return m
 
 
@@ -190,9 +196,15 @@ def index_lists(n, tier):
     for k in (1, 2):
         for c in itertools.combinations_with_replacement(pool, k):
             out.append(tuple(c))
+    # lists that are not ascending (callers are not obliged to sort)
+    for c in itertools.combinations(pool, 2):
+        out.append((c[1], c[0]))
+    if len(pool) >= 3:
+        out.append((pool[2], pool[0], pool[1]))
     if tier == "thorough":
         for c in itertools.combinations(pool, 3):
             out.append(tuple(c))
+            out.append(tuple(reversed(c)))
     return out
 
 
@@ -200,6 +212,7 @@ def work(chunk):
     col = engines.Collector()
     for spec, label, sim_absence, depth, tier in chunk:
         key = hash((label, tuple(sim_absence)))
+        sim_absence = tuple(sim_absence)
         m0 = start_project(spec, sim_absence)
         n = m0.project.time
         ops = [("insert", L) for L in index_lists(n, tier)] + [("remove",)]
@@ -238,15 +251,15 @@ def run(tier, seed):
         depth = 2 if tier == "quick" else 3
         items = []
         for sp, label in base_models(tmpdir):
-            for sim_abs in ((), (1,), (0, 2)):
+            for sim_abs in ((), (1,), (0, 2), (1, 30, 31), ("back", 1), ("back", 1, 3, 40, 41)):
                 items.append((sp, label, sim_abs, depth, tier))
         col = engines.fanout(items, work, seed=seed, chunks_per_proc=2)
     finally:
         shutil.rmtree(tmpdir, ignore_errors=True)
     meta = {
         "level": "model_checking",
-        "rule": "breadth-first search over histories (depth %d) of insert_absence_time_list(L) and remove_absence_time_list() on finished simulations (simulated with absence [], [1], [0,2]) of 8 base "
-        "models (FS chain, parallel, automatic, facility+conveyor, shared component, nested, sub-project task), L ranging over every multiset of size <= 2 (thorough: also 3-subsets) of "
+        "rule": "breadth-first search over histories (depth %d) of insert_absence_time_list(L) and remove_absence_time_list() on finished simulations (forward with absence [], [1], [0,2], [1,30,31]; backward with [1] and [1,3,40,41]) of the base "
+        "models (FS chain, parallel, automatic, facility+conveyor, shared component, nested, sub-project task), L ranging over every multiset of size <= 2 in ascending and descending order (thorough: also 3-subsets) of "
         "{0, 1, mid, last, last+1, last+10}; after every edit: no exception, every per-step log changed by the same count, time == common length, inserted steps zero-cost/no-work; insert-then-remove "
         "on an absence-free result restores all logs; states de-duplicated on the complete log dump; non-trivial = distinct reached log states" % depth,
         "bounds": {"depth": depth, "start_states": len(items)},
